@@ -9,7 +9,7 @@ from .. import report as R
 from ..report import RuleSpec
 from .. import sym
 from ..flow import ctor_kwargs
-from .common import unparse, call_name, local_defs, concrete_classes, short
+from .common import unparse, call_name, local_defs, concrete_classes, short, inline_locals
 
 FULL_LN = "reamber.algorithms.generate.full_ln.full_ln"
 
@@ -178,14 +178,21 @@ def _gap_sources(fn) -> List[Tuple[str, ast.AST, ast.AST]]:
     """where the gap to the next note of the column is computed: ('column', name, expr) for a frame column store F["name"] = expr,
     ('series', name, expr) for a local Series zipped with the rows"""
     out = []
+    used_in = set()
     for n in walk_no_nested(fn.node):
         if isinstance(n, ast.Assign) and len(n.targets) == 1 and any(isinstance(x, ast.Call) and call_name(x) in ("shift", "diff") for x in ast.walk(n.value)):
             t = n.targets[0]
+            # a step of the chain named first (d = col.diff(); F["diff"] = d.shift(-1)) is read in place
+            full = inline_locals(fn.node, n.value)
+            if unparse(full) != unparse(n.value):
+                used_in |= {x.id for x in ast.walk(n.value) if isinstance(x, ast.Name)}
+                n = ast.copy_location(ast.Assign(targets=n.targets, value=full), n)
+                ast.fix_missing_locations(n)
             if isinstance(t, ast.Subscript) and isinstance(t.slice, ast.Constant) and isinstance(t.value, ast.Name):
                 out.append(("column", t.slice.value, n))
             elif isinstance(t, ast.Name):
                 out.append(("series", t.id, n))
-    return out
+    return [o for o in out if not (o[0] == "series" and o[1] in used_in)]
 
 
 def _branch_paths(body: List[ast.stmt], conds=()) -> List[Tuple[tuple, List[ast.stmt], str]]:
